@@ -471,7 +471,32 @@ theorem step_refines (crc : Bytes → Nat) {w : World} {s : Spec} (hR : R crc w 
     | some (mode, m), ⟨v, hv, hm, hver, hwf, hA⟩ =>
       have hcur : CurRel crc w.vpk w.archs s.cur := by rw [hs]; exact ⟨v, hv, hm, hver, hwf, hA⟩
       simp only [flushOK, hv, hm, hver] at hf
-      simp only [step, specStep, hv, hs, hm, hver]
+      simp only [step, specStep, flushStep, hv, hs, hm, hver]
+      cases hw : mode.writable with
+      | false =>
+        simp only [Bool.false_eq_true, not_false_eq_true, if_true]
+        exact ⟨by tr, hd, hcur⟩
+      | true =>
+        have hfit : v.tree.fits = true := by simpa [hw] using hf
+        simp only [not_true_eq_false, if_false, gt_iff_lt, Nat.lt_irrefl, hfit]
+        refine ⟨by tr, ⟨v.tree, v.footer, rfl, hwf, hfit, hA⟩, ?_⟩
+        exact ⟨v, rfl, hm, hver, hwf, hA⟩
+  | exit exc =>
+    obtain ⟨hd, hc⟩ := hR
+    match hs : s.cur, hc with
+    | none, hc =>
+      simp only [CurRel] at hc
+      simp only [step, specStep, hc, hs]
+      exact ⟨by tr, hd, by rw [hs]; exact hc⟩
+    | some (mode, m), ⟨v, hv, hm, hver, hwf, hA⟩ =>
+      have hcur : CurRel crc w.vpk w.archs s.cur := by rw [hs]; exact ⟨v, hv, hm, hver, hwf, hA⟩
+      cases exc with
+      | true =>
+        simp only [step, specStep, hv, hs, if_true]
+        exact ⟨by tr, hd, hcur⟩
+      | false =>
+      simp only [flushOK, hv, hm, hver] at hf
+      simp only [step, specStep, flushStep, hv, hs, hm, hver, Bool.false_eq_true, if_false]
       cases hw : mode.writable with
       | false =>
         simp only [Bool.false_eq_true, not_false_eq_true, if_true]
